@@ -200,6 +200,12 @@ impl<T: Config> SyncTestSession<T> {
         self.check_distance
     }
 
+    /// Verification hook: number of remembered checksums.
+    #[cfg(feature = "verif-hooks")]
+    pub fn verif_checksum_history_len(&self) -> usize {
+        self.checksum_history.len()
+    }
+
     /// Updates the `checksum_history` and checks if the checksum is identical if it already has been recorded once
     fn checksums_consistent(&mut self, frame_to_check: Frame) -> bool {
         // remove entries older than the `check_distance`
